@@ -1017,25 +1017,249 @@ Proof.
   exists gw, gw'. auto.
 Qed.
 
+(* ---------- the re-encoded tree stays in the domain of the full reader ---------- *)
+Lemma walk_fields_all S od ro dfs fs :
+  walk_fields S od ro dfs fs = true <-> (forall id x, In (id, x) fs -> walk_field S od ro dfs id x = true).
+Proof.
+  induction fs as [|[i y] r IH]; [split; [intros _ id x []|reflexivity]|]. rewrite walk_fields_cons, andb_true_iff, IH. split.
+  - intros [H1 H2] id x [E|Hin]; [injection E as <- <-; exact H1|auto].
+  - intros H. split; [apply H; left; reflexivity|]. intros id x Hin. apply H. right. exact Hin.
+Qed.
+
+Section WalkTv.
+  Variable W : schema.
+  Hypothesis Hwf : wf_schema W = true.
+  Variable od : tval -> bool.
+  Variable ro : bool.
+
+  (* what the encoder writes for a typed value has no ignored field and announces the declared element types *)
+  Lemma walk_to_tval v : forall t, has_type W t v = true -> walk W od ro t (to_tval W t v) = true.
+  Proof.
+    induction v as [b|z|z|z|z|z|l|l| |z|l HF|l HF|l HF|fs unk HF|id x IH|u] using gval_ind'; intros t Ht; try reflexivity;
+      try discriminate Ht.
+    - rewrite has_type_list in Ht. rewrite to_tval_list. res_cases W t. rewrite walk_list, Eres.
+      apply andb_prop in Ht as [_ He]. apply andb_true_intro. split; [destruct l; [reflexivity|cbn [tv_elems nonempty_is]; apply ttype_eqb_refl]|].
+      induction HF as [|x r Hx Hr IHr]; [reflexivity|]. cbn [ht_elems] in He. apply andb_prop in He as [H1 H2].
+      cbn [tv_elems]. rewrite walk_elems_cons, (Hx _ H1), (IHr H2). reflexivity.
+    - rewrite has_type_set in Ht. rewrite to_tval_set. res_cases W t. rewrite walk_set, Eres.
+      apply andb_prop in Ht as [_ He]. apply andb_true_intro. split; [destruct l; [reflexivity|cbn [tv_elems nonempty_is]; apply ttype_eqb_refl]|].
+      induction HF as [|x r Hx Hr IHr]; [reflexivity|]. cbn [ht_elems] in He. apply andb_prop in He as [H1 H2].
+      cbn [tv_elems]. rewrite walk_elems_cons, (Hx _ H1), (IHr H2). reflexivity.
+    - rewrite has_type_map in Ht. rewrite to_tval_map. res_cases W t. rewrite walk_map, Eres.
+      apply andb_prop in Ht as [_ He]. apply andb_true_intro.
+      split; [destruct l as [|[a b] r]; [reflexivity|cbn [tv_pairs nonempty_is]; rewrite !ttype_eqb_refl; reflexivity]|].
+      induction HF as [|[a b] r [Ha Hb] Hr IHr]; [reflexivity|]. cbn [ht_pairs] in He. cbn [fst snd] in *.
+      apply andb_prop in He as [H1 H3]. apply andb_prop in H1 as [H1 H2].
+      cbn [tv_pairs]. rewrite walk_pairs_cons, (Ha _ H1), (Hb _ H2), (IHr H3). reflexivity.
+    - rewrite has_type_struct in Ht. rewrite to_tval_struct. destruct unk; [|discriminate]. res_cases W t. decl_cases W n.
+      rewrite walk_struct, Eres, Elk. destruct (wf_struct W Hwf _ _ _ _ Elk) as [Hnd Hok].
+      pose proof (ht_struct_inv W Hwf _ _ _ _ _ Elk Ht) as HT. clear Ht.
+      induction HF as [|[id x] r Hx Hr IHr]; [reflexivity|]. inversion HT as [|? ? (f & Hf & _ & Hty) HTr]; subst. cbn [fst snd] in *.
+      rewrite tv_fields_cons, Hf, walk_fields_cons. unfold walk_field.
+      rewrite (to_tval_ttype W _ _ Hty), (match_field_found W dfs 0 id f Hf), (Hx _ Hty), (IHr HTr). reflexivity.
+    - rewrite has_type_union in Ht. rewrite to_tval_union. res_cases W t. decl_cases W n.
+      destruct (find_variant vs id) as [vt|] eqn:Ev; [|discriminate].
+      destruct (is_void (resolve W vt)) eqn:Evoid; [rewrite walk_struct, Eres, Elk; reflexivity|].
+      rewrite walk_struct, Eres, Elk, walk_variants_cons. unfold walk_variant.
+      rewrite Ev, Evoid, (to_tval_ttype W _ _ Ht), ttype_eqb_refl, (IH _ Ht). reflexivity.
+  Qed.
+End WalkTv.
+
+Section WalkReenc.
+  Variables S W : schema.
+  Hypothesis HwfS : wf_schema S = true.
+  Hypothesis HwfW : wf_schema W = true.
+  Hypothesis Hsub : sub_schema S W = true.
+  Variables (p : pk) (k : bk) (c : wctx).
+  Variable od : tval -> bool.
+  Variable ro : bool.
+
+  Definition WR (v : tval) : Prop := forall t g,
+    no_retyped_variant S t v = true -> viewk S p k c t v = Ok g -> walk W od ro t v = true ->
+    walk W od ro t (reenc S t v) = true.
+
+  Lemma wr_leaf v : leaf v = true -> WR v.
+  Proof. intros Hl t g _ _ Hw. destruct v; try discriminate Hl; exact Hw. Qed.
+
+  Lemma wr_elems et l : Forall WR l -> walk_elems S (fun _ => true) false et l = true ->
+    forall ys, viewk_elems S p k c et l = Ok ys -> walk_elems W od ro et l = true ->
+    walk_elems W od ro et (reenc_elems S et l) = true.
+  Proof.
+    induction l as [|x r IH]; intros HF Hn ys Hk Hw; [reflexivity|].
+    inversion HF as [|? ? Hx Hr]; subst. rewrite walk_elems_cons in Hn, Hw. apply andb_prop in Hn as [Hn1 Hn2]. apply andb_prop in Hw as [Hw1 Hw2].
+    rewrite viewk_elems_cons in Hk. apply bind_ok_inv in Hk as (y & Hy & Hk). apply bind_ok_inv in Hk as (ys' & Hys & _).
+    cbn [reenc_elems]. rewrite walk_elems_cons, (Hx et y Hn1 Hy Hw1), (IH Hr Hn2 ys' Hys Hw2). reflexivity.
+  Qed.
+
+  Lemma wr_pairs kt vt l : Forall (fun q => WR (fst q) /\ WR (snd q)) l ->
+    walk_pairs S (fun _ => true) false kt vt l = true ->
+    forall ys, viewk_pairs S p k c kt vt l = Ok ys -> walk_pairs W od ro kt vt l = true ->
+    walk_pairs W od ro kt vt (reenc_pairs S kt vt l) = true.
+  Proof.
+    induction l as [|[a b] r IH]; intros HF Hn ys Hk Hw; [reflexivity|].
+    inversion HF as [|? ? [Ha Hb] Hr]; subst. cbn [fst snd] in *.
+    rewrite walk_pairs_cons in Hn, Hw. apply andb_prop in Hn as [Hn Hn3]. apply andb_prop in Hn as [Hn1 Hn2].
+    apply andb_prop in Hw as [Hw Hw3]. apply andb_prop in Hw as [Hw1 Hw2].
+    rewrite viewk_pairs_cons in Hk. apply bind_ok_inv in Hk as (ya & Hya & Hk). apply bind_ok_inv in Hk as (yb & Hyb & Hk).
+    apply bind_ok_inv in Hk as (ys' & Hys & _).
+    cbn [reenc_pairs]. rewrite walk_pairs_cons, (Ha kt ya Hn1 Hya Hw1), (Hb vt yb Hn2 Hyb Hw2), (IH Hr Hn3 ys' Hys Hw3). reflexivity.
+  Qed.
+
+  Lemma WR_list a l : Forall WR l -> WR (VList a l).
+  Proof.
+    intros HF t g Hn Hk Hw. unfold no_retyped_variant in Hn. rewrite walk_list in Hn, Hw. rewrite viewk_list in Hk. rewrite reenc_list.
+    rewrite <- (sub_resolve S W Hsub) in Hw. destruct (resolve S t) eqn:Er; try discriminate Hk.
+    apply andb_prop in Hn as [_ Hn]. apply andb_prop in Hw as [_ Hw]. apply bind_ok_inv in Hk as (ys & Hys & _).
+    rewrite walk_list, <- (sub_resolve S W Hsub), Er, (sub_ttype S W Hsub).
+    rewrite (wr_elems _ l HF Hn ys Hys Hw), andb_true_r. destruct (reenc_elems S t0 l); [reflexivity|apply ttype_eqb_refl].
+  Qed.
+  Lemma WR_set a l : Forall WR l -> WR (VSet a l).
+  Proof.
+    intros HF t g Hn Hk Hw. unfold no_retyped_variant in Hn. rewrite walk_set in Hn, Hw. rewrite viewk_set in Hk. rewrite reenc_set.
+    rewrite <- (sub_resolve S W Hsub) in Hw. destruct (resolve S t) eqn:Er; try discriminate Hk.
+    apply andb_prop in Hn as [_ Hn]. apply andb_prop in Hw as [_ Hw]. apply bind_ok_inv in Hk as (ys & Hys & _).
+    rewrite walk_set, <- (sub_resolve S W Hsub), Er, (sub_ttype S W Hsub).
+    rewrite (wr_elems _ l HF Hn ys Hys Hw), andb_true_r. destruct (reenc_elems S t0 l); [reflexivity|apply ttype_eqb_refl].
+  Qed.
+  Lemma WR_map ka va l : Forall (fun q => WR (fst q) /\ WR (snd q)) l -> WR (VMap ka va l).
+  Proof.
+    intros HF t g Hn Hk Hw. unfold no_retyped_variant in Hn. rewrite walk_map in Hn, Hw. rewrite viewk_map in Hk. rewrite reenc_map.
+    rewrite <- (sub_resolve S W Hsub) in Hw. destruct (resolve S t) eqn:Er; try discriminate Hk.
+    apply andb_prop in Hn as [_ Hn]. apply andb_prop in Hw as [_ Hw]. apply bind_ok_inv in Hk as (ys & Hys & _).
+    rewrite walk_map, <- (sub_resolve S W Hsub), Er, !(sub_ttype S W Hsub).
+    rewrite (wr_pairs _ _ l HF Hn ys Hys Hw), andb_true_r. destruct (reenc_pairs S t0_1 t0_2 l); [reflexivity|rewrite !ttype_eqb_refl; reflexivity].
+  Qed.
+
+  (* every entry of the re-encoded field list: a known field re-encoded, a default written out, or an ignored field as it was *)
+  Lemma reenc_entries dfs kp fs : nodup_ids (map f_id dfs) = true ->
+    let RR := reenc_fields S dfs kp fs (map (init_tvar S) dfs) [] in
+    forall id t, In (id, t) (finish_tv S dfs (fst RR) ++ snd RR) ->
+      (exists i f x id', nth_error dfs i = Some f /\ id = f_id f /\ t = reenc S (f_ty f) x /\ In (id', x) fs /\
+                         match_field S dfs 0 (Some id') (ttype_of x) = Some (i, f)) \/
+      (exists f b d, In f dfs /\ id = f_id f /\ f_dflt f = Some (b, d) /\ t = to_tval S (f_ty f) d) \/
+      (In (id, t) fs /\ match_field S dfs 0 (Some id) (ttype_of t) = None).
+  Proof.
+    intros HndS RR id t Hin.
+    destruct (rf_char S dfs HndS kp fs (map (init_tvar S) dfs) []) as (Rf1 & Rf2 & Rf3). fold RR in Rf1, Rf2, Rf3. cbn [app] in Rf2.
+    apply in_app_or in Hin as [Hin|Hin].
+    - destruct (finish_tv_in _ _ _ _ _ Hin) as (i & f & o & Hi & Ho & -> & He).
+      assert (Hli : (i < length (map (init_tvar S) dfs))%nat) by (rewrite map_length; apply nth_error_Some; congruence).
+      rewrite (Rf1 i f Hi Hli) in Ho. destruct (lastp (carries S f) fs) as [x|] eqn:El.
+      + injection Ho as <-. cbn [entry] in He. injection He as <-. destruct (lastp_in _ _ _ El) as (id' & Hin' & Hc').
+        left. exists i, f, x, id'. repeat split; auto. exact (carried_matched S dfs HndS _ _ _ _ Hi Hc').
+      + rewrite nth_error_map, Hi in Ho. cbn [option_map] in Ho. injection Ho as <-.
+        right. left. unfold entry, init_tvar, init_var in He. destruct (f_dflt f) as [[bb d]|] eqn:Ed.
+        * exists f, bb, d. split; [eapply nth_error_In; eauto|]. split; [reflexivity|]. split; [exact Ed|].
+          destruct bb; cbn [option_map] in He; injection He as <-; reflexivity.
+        * cbn [option_map] in He. discriminate.
+    - rewrite Rf2 in Hin. destruct kp; [|destruct Hin]. apply filter_In in Hin as [Hin Hu].
+      right. right. split; [exact Hin|]. unfold unmatched in Hu. cbn [fst snd] in Hu.
+      destruct (match_field S dfs 0 (Some id) (ttype_of t)); [discriminate|reflexivity].
+  Qed.
+
+  Lemma WR_struct fs : Forall (fun q => WR (snd q)) fs -> WR (VStruct fs).
+  Proof.
+    intros HF t g0 Hn Hk Hw. unfold no_retyped_variant in Hn. rewrite walk_struct in Hn, Hw. rewrite viewk_struct in Hk. rewrite reenc_struct.
+    rewrite <- (sub_resolve S W Hsub) in Hw. destruct (resolve S t) eqn:Er; try discriminate Hk.
+    assert (ErW : resolve W t = TyRef n) by (rewrite <- (sub_resolve S W Hsub); exact Er).
+    destruct (lookup S n) as [[dfs kp ia|vs vok kp| |]|] eqn:ElS; try discriminate Hk.
+    - destruct (sub_struct S W Hsub _ _ _ _ ElS) as (dfw & kpw & iaw & ElW & Hall & Hnk). rewrite ElW in Hw.
+      destruct (wf_struct S HwfS _ _ _ _ ElS) as [HndS HokS]. destruct (wf_struct W HwfW _ _ _ _ ElW) as [HndW HokW].
+      apply bind_ok_inv in Hk as (rS & HkS & _).
+      cbv zeta. rewrite walk_struct, ErW, ElW. apply walk_fields_all. intros id tv Hin.
+      rewrite walk_fields_all in Hw.
+      (* the full schema's declaration of a reader's field matches the same wire fields *)
+      assert (Hcount : forall f, In f dfs -> exists j g, nth_error dfw j = Some g /\ field_sub f g = true).
+      { intros f Hf. destruct (Hall f Hf) as (g & Hg & Hs). destruct (In_nth_error _ _ Hg) as (j & Hj). eauto. }
+      destruct (reenc_entries dfs kp fs HndS id tv Hin) as [(i & f & x & id' & Hi & -> & -> & Hin' & EmS)|[(f & b & d & Hf & -> & Ed & ->)|[Hin' _]]].
+      + destruct (Hcount f (nth_error_In _ _ Hi)) as (j & g & Hj & Hs). destruct (field_sub_inv _ _ Hs) as (Eid & Ety & _).
+        destruct (matched_carried S dfs HndS _ _ _ _ EmS) as [_ HcS]. destruct (carries_inv _ _ _ HcS) as [_ Et]. cbn [snd] in Et.
+        assert (HcW : carries W g (id', x) = true) by (apply carries_intro; [destruct (carries_inv _ _ _ HcS) as [E1 _]; cbn [fst] in E1 |- *; congruence|cbn [snd]; rewrite <- Ety, <- (sub_ttype S W Hsub); exact Et]).
+        assert (HcW2 : carries W g (f_id f, reenc S (f_ty f) x) = true)
+          by (apply carries_intro; [exact (eq_sym Eid)|cbn [snd]; rewrite reenc_ttype, <- Ety, <- (sub_ttype S W Hsub); exact Et]).
+        unfold walk_field. rewrite (carried_matched W dfw HndW _ _ _ _ Hj HcW2). rewrite <- Ety.
+        rewrite Forall_forall in HF. specialize (HF _ Hin'). cbn [snd] in HF.
+        destruct (vkf_all_ok S p k c dfs kp fs _ _ _ HkS _ _ _ _ Hin' EmS) as (yk & Hyk).
+        pose proof (walk_fields_in _ _ _ _ _ _ _ Hn Hin') as Hwn. unfold walk_field in Hwn. rewrite EmS in Hwn.
+        apply (HF _ _ Hwn Hyk). specialize (Hw _ _ Hin'). unfold walk_field in Hw.
+        rewrite (carried_matched W dfw HndW _ _ _ _ Hj HcW), <- Ety in Hw. exact Hw.
+      + destruct (Hcount f Hf) as (j & g & Hj & Hs). destruct (field_sub_inv _ _ Hs) as (Eid & Ety & Edf). rewrite Ed in Edf.
+        destruct (f_dflt g) as [[b' d']|] eqn:Edg; [|contradiction]. subst d'.
+        destruct (field_ok_inv _ _ (HokS f Hf)) as (_ & _ & _ & HtS). rewrite Ed in HtS.
+        destruct (field_ok_inv _ _ (HokW g (nth_error_In _ _ Hj))) as (_ & _ & _ & HtW). rewrite Edg in HtW. rewrite <- Ety in HtW.
+        assert (HcW : carries W g (f_id f, to_tval S (f_ty f) d) = true)
+          by (apply carries_intro; [exact (eq_sym Eid)|cbn [snd]; rewrite (to_tval_ttype S _ _ HtS), <- Ety; symmetry; apply (sub_ttype S W Hsub)]).
+        unfold walk_field. rewrite (carried_matched W dfw HndW _ _ _ _ Hj HcW), <- Ety.
+        rewrite (to_tval_sub S W HwfS HwfW Hsub d _ HtS HtW). apply (walk_to_tval W HwfW od ro d _ HtW).
+      + exact (Hw _ _ Hin').
+    - destruct (sub_union S W Hsub _ _ _ _ ElS) as (vw & vow & kpw & ElW & Hall & Hnk). rewrite ElW in Hw.
+      pose proof (wf_union_nodup W HwfW _ _ _ _ ElW) as HndW.
+      assert (Hone : forall id x vt, walk_variant S (fun _ => true) false vs id x = true -> variant_by_id S vs id = Some vt ->
+                 walk_variant W od ro vw id x = true -> WR x ->
+                 forall y, viewk S p k c vt x = Ok y -> walk_variant W od ro vw id (reenc S vt x) = true).
+      { intros id x vt Hn1 Ev Hw1 Hx y Hy. destruct (variant_typed S vs id x vt Hn1 Ev) as (Hty & Hf & Hnv).
+        pose proof (find_variant_nodup vw HndW id vt (Hall _ _ (find_variant_in _ _ _ Hf))) as Hfw.
+        unfold walk_variant in Hw1 |- *. rewrite Hfw, <- (sub_resolve S W Hsub), Hnv in Hw1 |- *.
+        rewrite reenc_ttype. rewrite <- (sub_ttype S W Hsub), <- Hty, ttype_eqb_refl in Hw1 |- *.
+        exact (Hx vt y (variant_walk2 S vs id x vt Hn1 Ev) Hy Hw1). }
+      destruct kp.
+      + apply bind_ok_inv in Hk as (retk & Hvk & _). destruct fs as [|[id x] r]; [rewrite walk_struct, ErW, ElW; reflexivity|].
+        inversion HF as [|? ? Hx Hr]; subst. rewrite walk_variants_cons in Hn, Hw. apply andb_prop in Hn as [Hn1 _]. apply andb_prop in Hw as [Hw1 _].
+        rewrite viewk_variantsk_cons in Hvk. destruct (variant_by_id S vs id) as [vt|] eqn:Ev.
+        * apply bind_ok_inv in Hvk as (y & Hy & _). rewrite walk_struct, ErW, ElW, walk_variants_cons.
+          rewrite (Hone id x vt Hn1 Ev Hw1 Hx y Hy). reflexivity.
+        * rewrite walk_struct, ErW, ElW, walk_variants_cons, Hw1. reflexivity.
+      + apply bind_ok_inv in Hk as (retk & Hvk & _). rewrite walk_struct, ErW, ElW.
+        clear ElS. revert retk Hvk. generalize (@None (Z * gval)).
+        induction fs as [|[id x] r IH]; intros ret0 retk Hvk; [reflexivity|].
+        inversion HF as [|? ? Hx Hr]; subst. rewrite walk_variants_cons in Hn, Hw. apply andb_prop in Hn as [Hn1 Hn2]. apply andb_prop in Hw as [Hw1 Hw2].
+        rewrite viewk_variants_cons in Hvk. cbn [reenc_variants]. destruct (variant_by_id S vs id) as [vt|] eqn:Ev.
+        * destruct ret0; [discriminate|]. apply bind_ok_inv in Hvk as (y & Hy & _). rewrite walk_variants_cons.
+          rewrite (Hone id x vt Hn1 Ev Hw1 Hx y Hy). reflexivity.
+        * exact (IH Hr Hn2 Hw2 ret0 retk Hvk).
+  Qed.
+
+  Theorem WR_all v : WR v.
+  Proof.
+    induction v using tval_ind'; try (apply wr_leaf; reflexivity).
+    - apply WR_struct; assumption.
+    - apply WR_list; assumption.
+    - apply WR_set; assumption.
+    - apply WR_map; assumption.
+  Qed.
+End WalkReenc.
+
 (* ---------- end to end: the emitted decoder of the full schema on the re-encoded bytes ---------- *)
+(* reenc keeps a message in the C08 domain of the full reader *)
+Theorem reenc_dom : forall S W p k c T tv g,
+  wf_schema S = true -> wf_schema W = true -> sub_schema S W = true ->
+  no_retyped_variant S T tv = true -> viewk S p k c T tv = Ok g ->
+  evo_dom W T tv = true -> no_retyped_variant W T tv = true ->
+  evo_dom W T (reenc S T tv) = true /\ no_retyped_variant W T (reenc S T tv) = true.
+Proof.
+  intros S W p k c T tv g HwfS HwfW Hsub Hn Hk Hd HnW. split.
+  - exact (WR_all S W HwfS HwfW Hsub p k c skippable true tv T g Hn Hk Hd).
+  - exact (WR_all S W HwfS HwfW Hsub p k c (fun _ => true) false tv T g Hn Hk HnW).
+Qed.
+
 (* decode with retention under S, emitted encode, then the decoder pilota-build emits for the FULL schema W: it returns
-   what it returns on the original message, up to dfill.  The last two hypotheses say that the re-encoded message is in
-   the C08 domain of the full reader (decidable on the closed form reenc; they hold for the original message by
-   assumption and reenc only re-announces declared element types and re-orders fields). *)
+   what it returns on the original message (view W T tv, by C08_tolerant: the message is in the C08 domain of W), up to
+   dfill, and stops at the end of the message. *)
 Theorem keep_retain_full : forall S W p k T tv g gw,
   wf_schema S = true -> wf_schema W = true -> sub_schema S W = true -> no_keep_arg S = true -> p <> PCompact ->
   wt tv = true -> ttype_of tv = ttype_of_ty S T ->
   evo_dom S T tv = true -> no_retyped_variant S T tv = true ->
+  evo_dom W T tv = true -> no_retyped_variant W T tv = true ->
   forall c, w_pend c = None ->
   viewk S p k c T tv = Ok g -> empty_elems_ok S T tv = true ->
   view W T tv = Ok gw ->
-  evo_dom W T (reenc S T tv) = true -> no_retyped_variant W T (reenc S T tv) = true ->
   exists b gw',
     enc_ty S p k T g c = Ok (b, c) /\ dfill W T gw gw' /\
     forall fuel r rcx, (vsize (reenc S T tv) <= fuel)%nat -> idle rcx ->
       gen_decode W p fuel T (mkS (flat b ++ r) rcx) = Ok (gw', mkS r rcx).
 Proof.
-  intros S W p k T tv g gw HwfS HwfW Hsub Hnka Hbin Hwt Hty Hd Hn c Hc Hk Hee Hw HdW HnW.
+  intros S W p k T tv g gw HwfS HwfW Hsub Hnka Hbin Hwt Hty Hd Hn HdW0 HnW0 c Hc Hk Hee Hw.
+  destruct (reenc_dom S W p k c T tv g HwfS HwfW Hsub Hn Hk HdW0 HnW0) as [HdW HnW].
   pose proof (KeepWtP.reenc_wt S tv T HwfS Hwt Hty Hd Hn Hee) as Hwr.
   destruct (keep_retain S p k c T tv g HwfS Hbin Hc Hn Hk Hwr) as (b & He & Hr).
   destruct (full_view S W p k c T tv g gw HwfS HwfW Hsub Hn Hk Hw) as (gw' & Hv & Hdf).
